@@ -218,15 +218,24 @@ def install(I):
                 yield SV(INT, I.card(arr)), st
                 return
             if t == "any":
-                f = I.ufunc("val_len", Val, core.I)
-                if not hasattr(I, "_val_len_ax"):
-                    I._val_len_ax = True
-                    x = z3.Const("vl_x", Val)
-                    I.axioms.append(z3.ForAll([x], f(x) >= 0))
-                    for n in range(0, 8):
-                        I.axioms.append(z3.ForAll([x], z3.Implies(z3.And(Val.is_VTup(x), core.vlist_has_len(Val.items(x), n)),
-                                                                  f(x) == n)))
-                yield SV(INT, f(v.tree)), st
+                # len() of a tuple stored as a scalar Val: explicit unfolding up to 8 components (longer tuples are
+                # outside the model: assumption A-tuplen)
+                I.assumptions_used.add("A-tuplen: tuples stored as attribute values have at most 8 components")
+                items = Val.items(v.tree)
+                term = z3.IntVal(9)
+                lst = items
+                chain = []
+                for n in range(0, 9):
+                    chain.append((lst == core.VList.Nil, n))
+                    lst = core.VList.tl(lst)
+                for cond, n in reversed(chain):
+                    term = z3.If(cond, z3.IntVal(n), term)
+                ok = Val.is_VTup(v.tree)
+                if st.pure:
+                    yield SV(INT, term), st
+                    return
+                for _, s in I.partial(st, ok, "TypeError", None):
+                    yield SV(INT, term), s
                 return
             if t == "obj":
                 fv = I.getattr(st, v, "__len__")
@@ -913,6 +922,11 @@ def install(I):
             else:
                 raise
 
+    @reg("callable")
+    def _callable(I, st, args, kw):
+        from .interp import FuncVal, LambdaVal
+        yield isinstance(args[0], (FuncVal, LambdaVal, BuiltinVal, ClassVal)), st
+
     @reg("hasattr")
     def _hasattr(I, st, args, kw):
         obj, name = args
@@ -1011,6 +1025,29 @@ def install(I):
         if recv is None:
             yield from I.raise_exc(st, "AttributeError")
             return
+        if isinstance(recv, dict) and recv:
+            # static record
+            if name == "get":
+                k = args[0]
+                d = args[1] if len(args) > 1 else None
+                if isinstance(k, str):
+                    yield recv.get(k, d), st
+                    return
+                out = d
+                for kk, vv in recv.items():
+                    out = I.ite(I.py_eq(k, kk), vv if not isinstance(vv, (list, tuple)) else I.tup_to_sv(tuple(vv)), out)
+                yield out, st
+                return
+            if name == "items":
+                yield [(k, v) for k, v in recv.items()], st
+                return
+            if name == "keys":
+                yield list(recv.keys()), st
+                return
+            if name == "values":
+                yield list(recv.values()), st
+                return
+            raise Unsupported("method %s on a static dict record" % name)
         if isinstance(recv, (set, dict)) and not recv:
             raise Unsupported("method %s on an untyped empty literal" % name)
         if not isinstance(recv, SV):
